@@ -498,23 +498,25 @@ theorem length_mergeOutClusters (K : Consts) (pre : List Info) (s : Info) (mid r
   have := length_takeWhile_le (fun i : Info => i.cluster == (lastOf s mid).cluster) rest
   omega
 
+/-- `starter == out_len - 1 || mcc(prev) < mcc(cur)`; `mid` = the out-buffer after the starter -/
+def unblocked (mid : List Info) (cur : Info) : Bool :=
+  match mid.getLast? with
+  | none => true
+  | some prev => decide (prev.mcc < cur.mcc)
+
+/-- `(ctx.compose)(a, b)` is defined and `face.get_nominal_glyph` maps the result: `(composed, glyph)` -/
+def composeMapped (U : UData) (F : Font) (a b : Nat) : Option (Nat × Nat) :=
+  match U.comp a b with
+  | some c => (match F.glyph c with | some g => some (c, g) | none => none)
+  | none => none
+
 /-- src: _hb_ot_shape_normalize, "Third round, recompose": the `while buffer.idx < count` loop.
     `pre ++ s :: mid` = `out_info()[..out_len]` with `s = out_info()[starter]`; `inp` = `info[idx..count]`. -/
 def round3Go (U : UData) (F : Font) (K : Consts) :
     List Info → List Info → Info → List Info → Nat → List Info × Nat
   | [], pre, s, mid, flags => (pre ++ s :: mid, flags)
   | cur :: rest, pre, s, mid, flags =>
-    -- starter == out_len - 1 || mcc(prev) < mcc(cur)
-    let unblocked := match mid.getLast? with
-      | none => true
-      | some prev => prev.mcc < cur.mcc
-    let composed : Option (Nat × Nat) :=
-      if cur.isMark && unblocked then
-        match U.comp s.cp cur.cp with
-        | some c => (match F.glyph c with | some g => some (c, g) | none => none)
-        | none => none
-      else none
-    match composed with
+    match (if cur.isMark && unblocked mid cur then composeMapped U F s.cp cur.cp else none) with
     | some (c, g) =>
       -- next_glyph(); merge_out_clusters(starter, out_len); out_len -= 1
       let r := mergeOutClusters K pre s (mid ++ [cur]) rest
